@@ -25,5 +25,5 @@ json.dump({"id":i,"property":p,"needs_to_manifest":"see notes.md","confirmed":{"
 PY
   echo "stored in $V"
 else
-  echo "NOT CONFIRMED"; tail -5 /tmp/seed_clean.log /tmp/seed_mut.log /tmp/seed_tests.log
+  echo "NOT CONFIRMED"; for f in /tmp/seed_clean.log /tmp/seed_mut.log /tmp/seed_tests.log; do tail -n 5 $f; done
 fi
